@@ -165,6 +165,10 @@ func (c *simCreds) GetRequestMetadata(ctx context.Context, uri ...string) (map[s
 			t.Stop()
 			simrt.Woken("creds-ctx")
 			c.s.end(ev, ctx.Err())
+			if c.spec.DelayN%2 == 0 {
+				// what token sources built on oauth2 / net/http return
+				return nil, fmt.Errorf("token refresh abandoned: %w", ctx.Err())
+			}
 			return nil, ctx.Err()
 		}
 	}
@@ -951,6 +955,7 @@ func (s *Sim) handlerEnter(rs *rpcState, ctx context.Context, via string) *Event
 		if _, ok := metadata.FromOutgoingContext(ctx); ok {
 			e.Flags["outgoing-md-visible"] = "yes"
 		}
+		e.Flags["sees"] = strings.Join(layerMarks(ctx), ",")
 		if _, ok := metadata.FromIncomingContext(ctx); !ok {
 			// over a network a handler always has incoming metadata, if only the
 			// transport's own keys
